@@ -144,9 +144,14 @@ type CType struct {
 	Slice bool
 	Pkg   string
 	Name  string
+	Key   *CType // map[Key]Elem when non-nil
+	Elem  *CType
 }
 
 func (t CType) String() string {
+	if t.Key != nil {
+		return "map[" + t.Key.String() + "]" + t.Elem.String()
+	}
 	s := ""
 	if t.Slice {
 		s += "[]"
@@ -262,6 +267,13 @@ func (p *cparser) parseType() CType {
 	id := p.next()
 	if id.k != tIdent {
 		p.fail("expected type name, got %q", id.s)
+	}
+	if id.s == "map" {
+		p.expect("[")
+		k := p.parseType()
+		p.expect("]")
+		e := p.parseType()
+		return CType{Key: &k, Elem: &e, Slice: t.Slice}
 	}
 	t.Name = id.s
 	if p.accept(".") {
